@@ -1171,7 +1171,7 @@ def gen_cases(rng, tier):
     for i in range(6 if T else 2):
         ks = [["ping-zero"] * 3, ["ping-zero", "inv", "ping-zero"]]
         pr = [[_msg(kd, 6 * i + 3 * t + j) for j, kd in enumerate(kk)] for t, kk in enumerate(ks)]
-        out.append(case("ping-boundary-nonces", "sweep", pr, 10 ** 6 if T else 30, i, False))
+        out.append(case("ping-boundary-nonces", "sweep", pr, 20000 if T else 30, i, False))
         out.append(case("ping-boundary-nonces", "run", pr, [t for _ in range(12) for t in (0, 1)], EAGER))
     # --- odd but legal command names (empty name = 12 NUL bytes, a full 12-character name, words the code itself uses):
     #     unknown commands like any other - queued once, in order, and the peer's later ping still answered ---
